@@ -6,7 +6,7 @@
 (* model-level theorems of the declarative semantics on each of them and   *)
 (* prints one behaviour ("CASE {...}") per state for the Rust side.        *)
 (***************************************************************************)
-EXTENDS AscentSem, Json, IOUtils
+EXTENDS SemiNaive, Json, IOUtils
 
 Progs == JsonDeserialize(IOEnv.PROGS)
 
@@ -52,11 +52,19 @@ Theorems ==
    /\ Saturated(P, lm)                        \* no rule can add anything (hence LeastModel(P, lm) = lm: idempotence, C13)
    /\ Stratifiable(Elaborate(P))
 
+(* the evaluation strategy of the generated code (plan + semi-naive loop, SemiNaive.tla) computes the least model *)
+SemiNaiveCorrect == SemiNaiveResult(P, inp) = LeastModel(P, inp)
+
 (* a larger input gives a larger model when no negation / aggregation is involved *)
 MonotoneStep ==
    [][ Monotone(P) => DbBelow(P, LeastModel(P, inp), LeastModel(P, inp')) ]_vars
 
 RowsJ(S) == SetToSeq(S)
+PlanJ(Q) == LET pl == PlanOf(Q) IN
+   [ i \in DOMAIN pl |-> [ looping |-> pl[i].looping, dynamic |-> SetToSeq(pl[i].dynamic),
+                          variants |-> FoldSet(LAMBDA r, acc : acc + r.variants, 0, pl[i].rules),
+                          rules |-> Cardinality(pl[i].rules) ] ]
+EmitPlan == (Size(inp) = 0) => PrintT("PLAN " \o ToJson([ prog |-> P.name, sccs |-> PlanJ(P) ]))
 Emit ==
    LET lm == LeastModel(P, inp) IN
    PrintT("CASE " \o ToJson([ pi |-> pi, prog |-> P.name,
